@@ -160,34 +160,52 @@ def _check_wakeups(check, an: Analysis):
             callee = Callee(fn, fowner.qn if fowner else None)
             construct = '%s:%s._value=%s' % (short(fn.qn), recv_text,
                                              ast.unparse(stmt.value)[:12])
-            exempt = _lowered_private_flag(an, fn, stmt, recv_text)
-            if exempt:
-                check.note('exempt %s: %s' % (construct, exempt))
-                continue
             whichs = ['none', 'exc:ext:Exception'] if fn.name == '__aexit__' else [None]
             ok, n_sites, bad = True, 0, None
-            for which in whichs:
-                for path in an.paths(callee, which):
+            # a store inside a private helper is judged where the helper is used: on the
+            # paths of its callers the helper runs in place
+            roots = _store_roots(an, fn)
+            exempt_roots = [r for r in roots
+                            if _lowered_private_flag(an, r, stmt, recv_text)]
+            if exempt_roots and len(exempt_roots) == len(roots):
+                check.note('exempt %s: %s' % (construct, _lowered_private_flag(
+                    an, exempt_roots[0], stmt, recv_text)))
+                continue
+            for which, root in [(w, r) for w in whichs for r in roots]:
+                rowner = an.p.enclosing_self_class(root)
+                for path in an.paths(Callee(root, rowner.qn if rowner else None), which):
                     for index, event in enumerate(path.events):
                         if event.kind != 'store' or event.get('stmt') is not stmt:
+                            continue
+                        if _lowered_private_flag(an, root, stmt, recv_text):
                             continue
                         n_sites += 1
                         direction = _direction(event, stmt.value)
                         block = rules.atomic_block(path, index)
-                        later = [e for e in block if path.events.index(e) > index] \
-                            if False else block
-                        def receiver(e):
+                        later = block
+                        stored = rules.value_text(path, index, stmt.value)
+
+                        def receiver(e, truth):
+                            """the object triggered, for a stored value of this truth"""
                             node = e.node
                             if isinstance(node, ast.Call) and isinstance(
                                     node.func, ast.Attribute):
-                                return rules.value_text(path, rules.event_index(path, e),
-                                                        node.func.value)
+                                pos = rules.event_index(path, e)
+                                found = rules.value_expr(path, pos, node.func.value)
+                                # (when_false, when_true)[bool(<stored value>)]
+                                if isinstance(found, ast.Subscript) and isinstance(
+                                        found.value, ast.Tuple) and \
+                                        len(found.value.elts) == 2 and ast.unparse(
+                                            found.slice) in (stored, 'bool(%s)' % stored):
+                                    return rules.normalise_state_aliases(ast.unparse(
+                                        found.value.elts[1 if truth else 0]))
+                                return rules.normalise_state_aliases(ast.unparse(found))
                             return call_receiver(e)
                         here = rules.value_text(path, index, target.value)
                         rise = any(is_call_to(e, rising_trigger) and
-                                   receiver(e) == here for e in later)
+                                   receiver(e, True) == here for e in later)
                         fall = any(is_call_to(e, rising_trigger) and
-                                   receiver(e) == '%s.%s' % (here, falling)
+                                   receiver(e, False) == '%s.%s' % (here, falling)
                                    for e in later)
                         good = (direction == 'rise' and rise) or \
                             (direction == 'fall' and fall) or \
@@ -293,6 +311,21 @@ def _all_listeners_told(an: Analysis, callee, stmt) -> bool:
                        for x in path.events[i:j])
             ok &= told
     return ok and n > 0
+
+
+def _store_roots(an: Analysis, fn, depth: int = 3):
+    """``fn``, or -- for a private plain function / static helper that only sets what it is
+    given -- the functions that call it (where it runs in place)"""
+    private = fn.name.startswith('_') and not (fn.name.startswith('__')
+                                              and fn.name.endswith('__'))
+    if not private or depth <= 0 or (fn.cls is not None and not fn.is_static):
+        return [fn]
+    callers = []
+    for caller, _call, _frame in rules.call_sites_of(an, fn.qn):
+        for root in _store_roots(an, caller, depth - 1):
+            if root not in callers:
+                callers.append(root)
+    return callers or [fn]
 
 
 def _direction(event, value) -> str:
@@ -410,11 +443,16 @@ def check_subscription_paired(check, an: Analysis, rule: str):
     # the subscription context itself: subscribe / unsubscribe with the same pair
     sub = an.callee(NOTIFICATION, '__subscription__')
     verdict, n = True, 0
+    generators = [sub] if sub.fn.kind == 'ctxgen' else []
     if sub.fn.kind != 'ctxgen':
-        # a context manager object: what __enter__ subscribed is what every way through
-        # __exit__ unsubscribes, handed over in attributes of the object
-        verdict, n = _manager_pairs(an, sub)
-    for path in an.paths(sub) if sub.fn.kind == 'ctxgen' else ():
+        # the method hands out a generator context manager made by a plain function ...
+        generators = [Callee(an.p.functions[t[1]], t[2]) for t in an.te.ret_type(sub)
+                      if t[0] == 'ctx']
+        if not generators:
+            # ... or a context manager object: what __enter__ subscribed is what every way
+            # through __exit__ unsubscribes, handed over in attributes of the object
+            verdict, n = _manager_pairs(an, sub)
+    for path in [p for gen in generators for p in an.paths(gen)]:
         subs = [e for e in path.events if is_call_to(e, '__subscribe__')
                 and e.get('exit') == 'normal']
         unsubs = [e for e in path.events if is_call_to(e, '__unsubscribe__')]
